@@ -214,7 +214,26 @@ func want(what string, t *Term, pattern string) string {
 	if glob(pattern, t.String()) {
 		return ""
 	}
-	return fmt.Sprintf("%s is %s, required %s", what, clip(t.String(), 400), clip(pattern, 400))
+	return fmt.Sprintf("%s is %s, required %s%s", what, clip(t.String(), 400), clip(pattern, 400), firstDiff(pattern, t.String()))
+}
+
+// firstDiff points at the first place where a term departs from a pattern
+// (after the canonical rewriting glob applies), so that long terms remain
+// diagnosable.
+func firstDiff(pattern, s string) string {
+	pattern, s = depConsts.Replace(pattern), depConsts.Replace(s)
+	i := 0
+	for i < len(pattern) && i < len(s) && pattern[i] == s[i] && pattern[i] != '*' {
+		i++
+	}
+	if i < len(pattern) && pattern[i] == '*' {
+		return ""
+	}
+	from := i - 40
+	if from < 0 {
+		from = 0
+	}
+	return fmt.Sprintf(" [first difference after %q: got %q, required %q]", s[from:i], clip(s[i:], 120), clip(pattern[i:], 120))
 }
 
 func clip(s string, n int) string {
